@@ -23,6 +23,7 @@ def extra(ctx):
     gfi_extras.c01_law(ctx, 30000 if ctx.thorough else 4000)
     gfi_extras.c01_modes(ctx)
     gfi_extras.c01_mixed_cond(ctx)
+    gfi_extras.real_distribution_keyword_lanes(ctx, "C01")
 
 
 def replay(ctx, payload):
